@@ -2,13 +2,13 @@
 from __future__ import annotations
 
 import ast
-from typing import List, Optional, Set, Tuple
+from typing import Dict, List, Optional, Set, Tuple
 
 from ..cfg import NORMAL, Node
 from ..core import Ctx
 from ..flow import ALL, find_path, names_in
 from ..model import AnalysisError, FunctionInfo, dotted, norm_text
-from .common import edge_target, effective_test, handler_exits, null_edges, eval3, kwarg, path_arg, reachable_from, str_consts
+from .common import edge_target, effective_test, explore, handler_exits, null_edges, eval3, kwarg, path_arg, reachable_from, str_consts
 
 EXPLANATION = (
     "Static analysis of the in-flight marker protocol: (R1) dominance + def-use: every write of a data file, manifest "
@@ -238,6 +238,45 @@ def fresh_edges(ctx: Ctx, f: FunctionInfo) -> Tuple[Set[Tuple[int, int]], Set[Tu
     return fresh, stale, brs
 
 
+def sweep_model(ctx: Ctx) -> Dict[str, object]:
+    """The marker sweep of _load_inflight_protection by role: loop, insertions into the returned set, marker deletes, the
+    freshness atoms (comparisons of the marker's mtime with the cutoff, oriented) and the `is a marker` atoms."""
+    lp = ctx.fn(GC + "._load_inflight_protection")
+    g = ctx.cfg(lp)
+    lsl = ctx.slicer(lp)
+    loops = [l for l in g.nodes if l.kind == "loop" and isinstance(l.ast, ast.For)]
+    mloops = [l for l in loops if any(isinstance(c, ast.Call) and (dotted(c.func) or "").endswith("list_files")
+                                      for c in lsl.origins(l.ast.iter, l.id)["calls"])]  # type: ignore[union-attr]
+    if not mloops:
+        raise AnalysisError("marker loop vanished from _load_inflight_protection")
+    ml = mloops[0]
+    rets = [n for n in g.nodes if n.kind == "return" and n.id in g.reachable()]
+    rnames = {nm for r in rets for nm in names_in(r.ast.value)}  # type: ignore[union-attr]
+    adds = [n for n in g.calls() if isinstance(n.ast, ast.Call) and isinstance(n.ast.func, ast.Attribute)
+            and n.ast.func.attr in ("add", "update") and dotted(n.ast.func.value) in rnames]
+    deletes = [n for n in ctx.calls(lp, storage="delete_file") if any(fr.kind == "loop" and fr.node is ml.ast for fr in n.frames)]
+
+    def has_stat(org) -> bool:
+        return any(isinstance(c, ast.Call) and isinstance(c.func, ast.Attribute) and c.func.attr == "get_modified_time" for c in org["calls"])
+
+    fresh: Dict[int, bool] = {}
+    marker_atoms: Set[int] = set()
+    for n in g.nodes:
+        if n.ast is None or n.id not in g.reachable():
+            continue
+        for x in ast.walk(n.ast):
+            if isinstance(x, ast.Compare) and len(x.ops) == 1 and isinstance(x.ops[0], (ast.Lt, ast.LtE, ast.Gt, ast.GtE)):
+                lo, ro = lsl.origins(x.left, n.id), lsl.origins(x.comparators[0], n.id)
+                if has_stat(lo) != has_stat(ro):
+                    gt = isinstance(x.ops[0], (ast.Gt, ast.GtE))
+                    fresh[id(x)] = gt if has_stat(lo) else not gt  # mtime >= cutoff  <=>  fresh
+            if isinstance(x, ast.Call) and isinstance(x.func, ast.Attribute) and x.func.attr == "endswith" \
+                    and any("inflight" in v for v in str_consts(ctx, lp, x)):
+                marker_atoms.add(id(x))
+    return {"fn": lp, "loop": ml, "body": edge_target(g, ml, "true"), "adds": adds, "deletes": deletes, "fresh": fresh,
+            "marker_atoms": marker_atoms}
+
+
 def r_honoured(ctx: Ctx, rid: str) -> None:
     ctx.rule(rid, "the collector honours every fresh marker: in the marker sweep each listed *.inflight entry that is not stale "
              "reaches protected.add(<its target>); the target of a marker with a payload is the payload's path", 3)
@@ -261,25 +300,21 @@ def r_honoured(ctx: Ctx, rid: str) -> None:
         org = lsl.origins(a.ast.args[0] if a.ast.args else None, a.id)  # type: ignore[union-attr]
         ok = any(isinstance(c, ast.Call) and (dotted(c.func) or "").endswith("_marker_target") for c in org["calls"])
         ctx.ob(rid, lp, "what is protected is the marker's target", a, ok, "protected.add(self._marker_target(...))")
-    fresh, stale, age_b = fresh_edges(ctx, lp)
-    # edges taken for entries that are NOT markers: `<name>.endswith(<suffix>)` false (possibly through a flag)
-    not_marker: Set[Tuple[int, int]] = set()
-    for b in g.nodes:
-        et = effective_test(ctx, lp, b) if b.kind == "branch" and b.id in g.reachable() else None
-        if et is None:
-            continue
-        e = et[0]
-        if isinstance(e, ast.Call) and isinstance(e.func, ast.Attribute) and e.func.attr == "endswith" \
-                and any("inflight" in v for v in str_consts(ctx, lp, e)):
-            not_marker |= {(b.id, d) for d, l in g.succ[b.id] if l == "false"}
-    body = edge_target(g, ml, "true")
-    w = None
-    if body is not None and adds:
-        w = find_path(g, body, [ml.id], avoid=[a.id for a in adds], labels=NORMAL,
-                      edge_ok=lambda s_, d_, l_: (s_, d_) not in stale and (s_, d_) not in not_marker)
-    ctx.ob(rid, lp, "every fresh *.inflight entry reaches protected.add", ml, bool(adds) and bool(age_b) and w is None,
-           "an iteration may leave the loop body without protecting its file only for a non-marker entry or a stale marker; "
-           "otherwise the files of a transaction in flight look like orphans to the sweep", witness=ctx.path_witness(lp, w))
+    sm = sweep_model(ctx)
+    results = explore(ctx, lp, [sm["body"]] if sm["body"] is not None else [], assume=sm["fresh"], stop=[ml.id],
+                      watch=[a.id for a in sm["adds"]] + [d.id for d in sm["deletes"]])
+    unprotected = [(store, asm) for _end, store, asm in results
+                   if not any(store.get(("seen", a.id)) for a in sm["adds"])
+                   and not any(asm.get(k) is False for k in sm["marker_atoms"])]
+    removed = [(store, asm) for _end, store, asm in results if any(store.get(("seen", d.id)) for d in sm["deletes"])]
+    ctx.ob(rid, lp, "every fresh *.inflight entry reaches protected.add", ml,
+           bool(sm["adds"]) and bool(sm["fresh"]) and bool(results) and not unprotected,
+           f"path-sensitive walk of one sweep iteration under the scenario 'the marker is fresh' ({len(results)} paths): an "
+           "iteration may end without protecting its file only for an entry that is not a marker; otherwise the files of a "
+           "transaction in flight look like orphans to the sweep"
+           + (f"; e.g. assumptions {dict(list(unprotected[0][1].items())[:3])}" if unprotected else ""))
+    ctx.ob(rid, lp, "a fresh marker is never removed", ml, not removed,
+           "under the same scenario no path reaches the marker delete")
     # _marker_target: a payload that names a path determines the result
     mt = ctx.fn(GC + "._marker_target")
     mg = ctx.cfg(mt)
@@ -298,53 +333,25 @@ def r_honoured(ctx: Ctx, rid: str) -> None:
     td = tdefs[0]
     tv = td.ast.targets[0].id  # type: ignore[union-attr]
 
-    def atom_valid(x: ast.AST) -> Optional[bool]:
-        # scenario: the payload names a path (a non-empty str)
-        if isinstance(x, ast.Name) and x.id == tv:
-            return True
-        if isinstance(x, ast.Call) and isinstance(x.func, ast.Name) and x.func.id == "isinstance" and len(x.args) == 2 \
-                and isinstance(x.args[0], ast.Name) and x.args[0].id == tv:
-            types = {dotted(t) for t in (x.args[1].elts if isinstance(x.args[1], ast.Tuple) else [x.args[1]])}
-            return "str" in types
-        if isinstance(x, ast.Compare) and len(x.ops) == 1 and isinstance(x.left, ast.Name) and x.left.id == tv \
-                and isinstance(x.comparators[0], ast.Constant):
-            cv = x.comparators[0].value
-            if cv is None or cv == "":
-                if isinstance(x.ops[0], (ast.Is, ast.Eq)):
-                    return False
-                if isinstance(x.ops[0], (ast.IsNot, ast.NotEq)):
-                    return True
-        return None
-
-    # walk the CFG from the payload read under the scenario
-    seen: Set[int] = set()
-    work = [d for d, l in mg.succ[td.id] if l in NORMAL]
-    reached: List[Node] = []
-    undecided = False
-    while work:
-        x = work.pop()
-        if x in seen:
+    # path-sensitive walk from the payload read under the scenario "the payload names a path"
+    scen = "metadata/manifests/m-0001.avro"
+    rets = [n for n in mg.nodes if n.kind == "return" and n.id in mg.reachable()]
+    starts = [d for d, l in mg.succ[td.id] if l in NORMAL]
+    # seed the store through a pseudo-assignment: the walk starts after the read, with the payload variable bound
+    res = explore(ctx, mt, starts, env={tv: scen}, stop=[r.id for r in rets], watch=[r.id for r in rets])
+    bad = []
+    for end, store, _asm in res:
+        if end == mg.exit:
             continue
-        seen.add(x)
-        nx = mg.nodes[x]
-        if nx.kind == "return":
-            reached.append(nx)
-            continue
-        if nx.kind == "branch" and nx.ast is not None:
-            v = eval3(nx.ast, atom_valid)
-            if v is None and tv in names_in(nx.ast):
-                undecided = True
-            for d, l in mg.succ[x]:
-                if l in NORMAL and (v is None or l == ("true" if v else "false") or l not in ("true", "false")):
-                    work.append(d)
-            continue
-        work.extend(d for d, l in mg.succ[x] if l in NORMAL)
-    bad = [r for r in reached if tv not in msl.origins(r.ast.value, r.id)["names"]]  # type: ignore[union-attr]
+        r = mg.nodes[end]
+        carriers = {tv} | {k for k, v in store.items() if isinstance(k, str) and v == scen}
+        if not (set(names_in(r.ast.value)) & carriers):  # type: ignore[union-attr]
+            bad.append(r)
     ctx.ob(rid, mt, "a marker payload naming a path determines the protected path", bad[0] if bad else td,
-           undecided or (bool(reached) and not bad),
-           "with a non-empty string payload every return derives from it (the legacy data/<basename> convention is only the "
-           "fallback): manifests and manifest lists of a commit in progress are protected under their own paths"
-           + (" [guard not evaluable: undecided]" if undecided else ""))
+           bool(res) and not bad,
+           f"path-sensitive walk under the scenario payload = {scen!r} ({len(res)} paths): every return reached derives from the "
+           "payload (the legacy data/<basename> convention is only the fallback) - manifests and manifest lists of a commit in "
+           "progress are protected under their own paths")
 
 
 def marker_parse_tolerant(ctx: Ctx, rid: str) -> None:
@@ -365,7 +372,7 @@ def marker_parse_tolerant(ctx: Ctx, rid: str) -> None:
                 ok = False
                 continue
             ex = handler_exits(ctx, mt, hn)
-            if ex["raise"] or not ex["return"]:
+            if ex["raise"] or not (ex["return"] or ex["fallthrough"]):
                 ok = False
         ctx.ob(rid, mt, "an unparseable payload falls back (does not raise)", p, ok,
                "json.loads / decode errors are handled by returning the legacy data/<basename> target; raising here makes every "
